@@ -5,6 +5,8 @@ use crate::report::{Meta, Report};
 use crate::rng::Rng;
 use crate::util::{catch, par_items};
 use crate::{obj, Ctx};
+use crate::refmodel::asm::encode;
+use emulator_2a_lib::compiler::Translator;
 use emulator_2a_lib::parser::{Asm, AsmParser, Instruction, Line};
 
 pub fn meta() -> Meta {
@@ -13,7 +15,7 @@ pub fn meta() -> Meta {
         rule: "seeded programs from the grammar generator (every instruction form and operand shape, all numeric values incl. boundaries, labels of any length and case, comments with arbitrary printable and Unicode content, long .DB/.DW lists exceeding the pad width, 0-40 labels, header comments) are parsed, rendered with Display and parsed again; the second AST must equal the first, line by line. distinct_nontrivial counts distinct (instruction shape, has-comment) line classes that went through the round trip",
         exhaustive: false,
         assumptions: vec!["the rendering under test is `format!(\"{}\", asm)`: header line plus one Display-rendered line per source line (the per-line rendering is what the TUI program pane and byte-code listings show)"],
-        floors: vec![("round_trips", 20_000), ("lines_round_tripped", 300_000), ("lines_with_unicode_comment", 5_000), ("long_data_lines", 500), ("programs_with_40_labels", 100)],
+        floors: vec![("round_trips", 20_000), ("lines_round_tripped", 300_000), ("lines_with_unicode_comment", 5_000), ("long_data_lines", 500), ("programs_with_40_labels", 100), ("listing_round_trips", 5_000)],
     }
 }
 
@@ -82,6 +84,31 @@ pub fn round_trip(asm: &Asm, rep: &mut Report) -> Option<(String, String)> {
         rep.class_str(&shape(a));
     }
     rep.count("lines_round_tripped", asm.lines.len() as u64);
+    // the same through the byte-code listing / TUI program pane: the lines reported by the
+    // translator, rendered one by one (only for programs the translator is specified for)
+    if encode(asm).is_ok() {
+        if let Ok(bc) = catch(|| Translator::compile(asm)) {
+            let mut pane = String::from("#! mrasm");
+            if let Some(c) = &asm.comment_after_shebang {
+                pane.push_str(&format!(" ; {}", c));
+            }
+            for (l, _) in &bc.lines {
+                pane.push('\n');
+                pane.push_str(&format!("{}", l));
+            }
+            match catch(|| AsmParser::parse(&pane)) {
+                Ok(Ok(b)) => {
+                    if b.lines != asm.lines {
+                        let i = b.lines.iter().zip(asm.lines.iter()).position(|(x, y)| x != y).unwrap_or(0);
+                        return Some(("C16:listing-line-differs".into(), format!("line {} of the translator's listing re-parses as {:?}, the program has {:?}", i, b.lines.get(i), asm.lines.get(i))));
+                    }
+                    rep.inc("listing_round_trips");
+                }
+                Ok(Err(e)) => return Some(("C16:listing-rejected".into(), format!("the translator's listing is not accepted by the parser: {}", format!("{}", e).lines().take(5).collect::<Vec<_>>().join(" | ")))),
+                Err(p) => return Some((format!("C16:panic-in-reparse:{}", p.site()), p.msg)),
+            }
+        }
+    }
     None
 }
 
